@@ -1331,6 +1331,12 @@ Outcome check_c16(const Case &c, Stats &st) {
   }
   long mode = c.pint("mode", 0);
   st.inc("c16_mode_" + std::to_string(mode));
+  // The twin comparisons (modes 1 and 2) run two interpreters whose numbers of
+  // NtoW::convert calls differ, so an F5 fault sequence would land at different
+  // operations on the two sides and make two sound results differ: F5 is only
+  // injected in mode 0.
+  if (mode != 0)
+    hooks().unusual_enabled = false;
   GuardResult gr = guarded(10000000, [&]() {
     Ctx cx;
     cx.di = di;
